@@ -1932,3 +1932,82 @@ class SliceSortByValue(EnumContract):
 
 
 REGISTRY.append(SliceSortByValue())
+
+
+# =======================================================================================
+# C20 through the public API
+
+
+def gen_smoothing_case(rnd):
+    date_cols = rnd.random() < 0.8
+    rd = gen_dim(rnd, "CAT", "a")
+    cd = gen_dim(rnd, "CAT_DATE" if date_cols else "CAT", "b")
+    for d in (rd, cd):
+        d.pop("doc_order", None)
+    # more periods than the usual bound so that windows fit
+    n = rnd.choice([1, 2, 3, 4, 5, 6])
+    cd["cats"] = [dict(id=i + 1, missing=(rnd.random() < 0.15)) for i in range(n)]
+    if all(c["missing"] for c in cd["cats"]):
+        cd["cats"][0]["missing"] = False
+    weighted = rnd.random() < 0.5
+    rs = gen_respondents(rnd, [rd, cd], rnd.choice([0, 10, 25, 40]), weighted)
+    sm = {"function": "one_sided_moving_avg"}
+    w = rnd.choice([None, 0, 1, 2, 3, 4, 7])
+    if w is not None:
+        sm["window"] = w
+    return dict(dims=[rd, cd], rs=rs, weighted=weighted, window=w, transforms={"columns_dimension": {"smoother": sm}})
+
+
+class SmoothingEndToEnd(EnumContract):
+    name = "e2e:smoothed column proportions / percentages / index vs trailing means of the unsmoothed values"
+    props = ("C20",)
+    bound = ("CAT x CAT_DATE (or CAT x CAT) responses, <= 4 rows, <= 6 periods (missing ones anywhere), <= 40 respondents, "
+             "window in {absent, 0, 1, 2, 3, 4, 7}; seeded sample")
+    clauses = ("smoothed-proportions", "smoothed-percentages", "smoothed-index", "unsmoothed-when-not-applicable", "smoothing-exception")
+
+    def cases(self, cfg, seed, thorough):
+        rnd = random.Random(9800 + seed)
+        for _ in range(2000 if thorough else 250):
+            yield gen_smoothing_case(rnd)
+
+    def check_case(self, case, cfg):
+        import numpy as np
+        import warnings
+        from cr.cube.cube import Cube
+
+        warnings.simplefilter("ignore")
+        dims, rs, weighted, tr, w = case["dims"], case["rs"], case["weighted"], case["transforms"], case["window"]
+        rd, cd = dims
+        if not valid_elems(rd) or not valid_elems(cd):
+            return []
+        bad = set()
+        try:
+            p = Cube(tabulate(dims, rs, weighted), transforms=copy.deepcopy(tr), population=1000).partitions[0]
+            p0 = Cube(tabulate(dims, rs, weighted), population=1000).partitions[0]
+            weff = w if w else 2
+            n = len(valid_elems(cd))
+            applies = cd["kind"] == "CAT_DATE" and 2 <= weff <= n
+
+            def trailing(x):
+                x = np.asarray(x, dtype=float)
+                out = np.full(x.shape, np.nan)
+                for t in range(weff - 1, x.shape[1]):
+                    out[:, t] = x[:, t - weff + 1:t + 1].sum(axis=1) / weff
+                return out
+
+            for name, src, clause in (("smoothed_column_proportions", "column_proportions", "smoothed-proportions"),
+                                      ("smoothed_column_percentages", "column_percentages", "smoothed-percentages"),
+                                      ("smoothed_column_index", "column_index", "smoothed-index")):
+                got = np.asarray(getattr(p, name), dtype=float)
+                plain = np.asarray(getattr(p0, src), dtype=float)
+                if applies:
+                    if not close(got, trailing(plain), 1e-7):
+                        bad.add(clause)
+                elif not close(got, plain, 1e-9):
+                    bad.add("unsmoothed-when-not-applicable")
+        except Exception as e:
+            bad.add("smoothing-exception:%s" % type(e).__name__)
+        return sorted(bad)
+
+
+REGISTRY.append(SmoothingEndToEnd())
